@@ -43,6 +43,9 @@ type c04State struct {
 	calls []*wcall
 	stop  atomic.Bool
 	wg    sync.WaitGroup
+	// trig, when set, is run once by the next writer goroutine immediately before
+	// its WriteUpdate call: the teardown stimulus and a write at the same instant
+	trig atomic.Pointer[func()]
 }
 
 func c04Body(r *rand.Rand, epoch, wid, seq int) []byte {
@@ -123,6 +126,9 @@ func c04World(t *testing.T, p c04Params) rt.Result {
 					defer st.wg.Done()
 					r := rand.New(rand.NewPCG(p.Seed, uint64(ep)*1000+uint64(wid)))
 					for seq := 0; !st.stop.Load() && seq < 400; seq++ {
+						if f := st.trig.Swap(nil); f != nil {
+							(*f)()
+						}
 						st.write(w, s.Writer, ep, wid, seq, c04Body(r, ep, wid, seq))
 						switch r.IntN(4) {
 						case 0:
@@ -229,13 +235,28 @@ func c04World(t *testing.T, p c04Params) rt.Result {
 			if ep == p.Epochs-1 {
 				break
 			}
+			// half of the remote-initiated teardowns are issued by a writer goroutine
+			// right before one of its writes (a write in flight at the teardown instant)
+			fire := func(f func()) {
+				if r.IntN(2) == 0 {
+					f()
+					return
+				}
+				st.trig.Store(&f)
+				for i := 0; i < 200 && st.trig.Load() != nil; i++ {
+					time.Sleep(time.Millisecond)
+				}
+				if g := st.trig.Swap(nil); g != nil {
+					f()
+				}
+			}
 			switch td {
 			case "close":
-				rc.Close()
+				fire(rc.Close)
 			case "reset":
-				rc.Reset()
+				fire(rc.Reset)
 			case "cease":
-				rc.SendNotification(6, 2, nil)
+				fire(func() { rc.SendNotification(6, 2, nil) })
 			case "silent":
 				// let the hold timer (3 s) expire: corebgp sends Hold Timer Expired and damps the peer for 60 s
 				if !rc.WaitEOF(10 * time.Second) {
@@ -275,7 +296,9 @@ func c04World(t *testing.T, p c04Params) rt.Result {
 				nWire++
 				e, wid, seq, ok := c04Key(m.Body)
 				if !ok {
-					if len(m.Body) < 12 {
+					if bytes.Equal(m.Body, []byte{0, 0, 0, 0}) {
+						w.Violate("connection %d carries the UPDATE written from inside OnClose (a write after the session ended reached the wire)", ci)
+					} else if len(m.Body) < 12 {
 						shortOnWire[len(m.Body)]++
 						if len(m.Body) > 0 && int(m.Body[0]-0xA0) != ci {
 							w.Violate("short UPDATE written in epoch %d appeared on connection %d", int(m.Body[0]-0xA0), ci)
